@@ -16,5 +16,5 @@ func TestVerifC21Hashslot(t *testing.T) {
 	defer r.Finish()
 	c21.Run(r, "hashslot", []c21.Component{
 		{Name: "hashslot.HashSlotForKey", New: func() c21.Fn { return hashslot.HashSlotForKey }},
-	}, nil, c21.Options{KeysAllCountsQuick: 1024, KeysAllCountsThorough: 8192})
+	}, nil, c21.Options{KeysAllCountsQuick: 512, KeysAllCountsThorough: 8192})
 }
